@@ -53,24 +53,41 @@ def main():
             rc, out = sh(["go", "build", "./..."], cwd=WT)
             assert rc == 0, "does not build: " + out
             meta["ran"].append("git apply patch.diff && go build ./... : ok")
-            dd = os.path.join(WT, a.demo_dir)
+            pkgdir = {"tchannel": ".", "tchannel_test": ".", "thrift": "thrift", "thrift_test": "thrift", "json": "json", "json_test": "json",
+                      "http": "http", "http_test": "http", "typed": "typed", "typed_test": "typed", "argreader": "internal/argreader", "relay": "relay", "relay_test": "relay"}
+            bydir = {}
             for d in demos:
-                shutil.copy(d, dd)
-            cmd = ["go", "test", "-count=1", "-timeout", "180s", "-run", runre] + (["-race"] if a.race else []) + ["."]
-            rc1, out1 = sh(cmd, cwd=dd)
-            meta["ran"].append("%s (in %s) with the change: exit %d" % (" ".join(cmd), a.demo_dir, rc1))
+                m = re.search(r"^package (\w+)", open(d).read(), re.M)
+                sub = pkgdir.get(m.group(1) if m else "", a.demo_dir) if a.demo_dir == "." else a.demo_dir
+                bydir.setdefault(sub, []).append(d)
+                shutil.copy(d, os.path.join(WT, sub))
+            meta["demo_dirs"] = sorted(bydir)
+
+            def run_demos(label):
+                worst, outs = 0, []
+                for sub, files in sorted(bydir.items()):
+                    ts = []
+                    for d in files:
+                        ts += re.findall(r"^func (Test\w+)\(", open(d).read(), re.M)
+                    cmd = ["go", "test", "-count=1", "-timeout", "240s", "-run", "^(" + "|".join(ts) + ")$"] + (["-race"] if a.race else []) + ["."]
+                    rc, out = sh(cmd, cwd=os.path.join(WT, sub))
+                    meta["ran"].append("%s (in %s) %s: exit %d" % (" ".join(cmd), sub, label, rc))
+                    worst = max(worst, 1 if rc != 0 else 0)
+                    outs.append(out)
+                return worst, "\n".join(outs)
+            rc1, out1 = run_demos("with the change")
             print("demo with change: exit", rc1)
             print("\n".join(out1.splitlines()[-12:]))
             sh(["git", "apply", "-R", os.path.abspath(patch)], cwd=WT)
-            rc2, out2 = sh(cmd, cwd=dd)
-            meta["ran"].append("same command without the change: exit %d" % rc2)
+            rc2, out2 = run_demos("without the change")
             print("demo without change: exit", rc2)
             if rc2 != 0:
                 print("\n".join(out2.splitlines()[-12:]))
             meta["demo_fails_with_change"] = rc1 != 0
             meta["demo_passes_without_change"] = rc2 == 0
-            for d in demos:
-                os.remove(os.path.join(dd, os.path.basename(d)))
+            for sub, files in bydir.items():
+                for d in files:
+                    os.remove(os.path.join(WT, sub, os.path.basename(d)))
             if not a.no_suite:
                 sh(["git", "apply", os.path.abspath(patch)], cwd=WT)
                 rc3, out3 = sh(["python3", os.path.join(ROOT, "tools", "baseline_check.py"), WT])
